@@ -1363,6 +1363,13 @@ impl Connection {
             debug!("ignoring forced key update in illegal state");
             return;
         }
+        if self.spaces[SpaceId::Handshake].crypto.is_some() {
+            // RFC 9001 section 6.1: an endpoint MUST NOT initiate a key update prior to having
+            // confirmed the handshake. A client is established before it is confirmed; its peer
+            // may answer a premature update with KEY_UPDATE_ERROR.
+            debug!("ignoring forced key update before the handshake is confirmed");
+            return;
+        }
         if self.prev_crypto.is_some() {
             // We already just updated, or are currently updating, the keys. Concurrent key updates
             // are illegal.
